@@ -610,12 +610,26 @@ def check(idx: Index, rep: Report, tier: str) -> str:
             while id(q) in pm5:
                 q = pm5[id(q)]
                 up.append(q)
-            calls_up = [unparse(u.func) for u in up if isinstance(u, ast.Call) and not (isinstance(u.func, ast.Attribute) and u.func.attr in ("items", "keys", "values"))]
-            comp_up = [u for u in up if isinstance(u, (ast.GeneratorExp, ast.ListComp, ast.SetComp))]
-            # order-independent wrappers seen on the way up: sum(...), frozenset(...), sorted(...), set(...)
-            if any(c in ("sum", "frozenset", "sorted", "set", "len") for c in calls_up) or any(isinstance(u, ast.SetComp) for u in comp_up):
-                continue
-            if any(c in ("tuple", "list", "str", "repr", "hash") for c in calls_up) or any(isinstance(u, ast.Tuple) for u in up):
+            verdict = None
+            for u in up:
+                if isinstance(u, ast.Call):
+                    fn_ = unparse(u.func)
+                    if isinstance(u.func, ast.Attribute) and u.func.attr in ("items", "keys", "values") and not u.args:
+                        continue
+                    if fn_ in ("sum", "frozenset", "sorted", "set", "len", "min", "max"):
+                        verdict = "independent"
+                        break
+                    if fn_ in ("tuple", "list", "str", "repr"):
+                        verdict = "ordered"
+                        continue
+                    if fn_ == "hash":
+                        break  # reached the hash with whatever was decided so far
+                    verdict = "unknown"  # handed to a helper this clause does not look into
+                    break
+                if isinstance(u, ast.SetComp):
+                    verdict = "independent"
+                    break
+            if verdict == "ordered":
                 ordered = n
                 break
     if ordered is not None:
